@@ -34,12 +34,16 @@
 (*   "direct"  a design in which the frame handler only marks the parked   *)
 (*             updates as due and the main loop takes them from where they *)
 (*             are parked (nothing blocks inside the frame worker)         *)
+(*   "async"   a design in which the frame handler only signals a          *)
+(*             per-connection flusher goroutine (non-blocking); the        *)
+(*             flusher does the blocking push, holding no session lock,    *)
+(*             and is waited for like the sender and the receiver          *)
 (***************************************************************************)
 EXTENDS Integers, Sequences, TLC
 
 CONSTANTS Q,        \* capacity of the scheduler queue (256 in the code)
           N,        \* messages the client still sends
-          Flush,    \* "queue" | "direct"
+          Flush,    \* "queue" | "direct" | "async"
           DiscDrain, \* BOOLEAN: while HandleDisconnect runs, a helper keeps consuming the queue (the repaired code); FALSE:
                     \* nobody does (the code before the repair of D11)
           Switches  \* BOOLEAN: the client may also ask to switch session ("sw": the handler leaves the old session - same
@@ -59,12 +63,15 @@ VARIABLES q,        \* scheduler queue: sequence of "n" (ordinary request), "u" 
           dch,      \* a disconnect is pending
           ctx,      \* "live" | "cancelled"
           sock,     \* "open" | "closed"
-          left      \* messages the client has not sent yet
+          left,     \* messages the client has not sent yet
+          sig,      \* ("async") a frame has been signalled to the flusher
+          xpc       \* ("async") the flusher: "idle" | "push" | "exit"  ("exit" from the start in the other designs)
 
-vars == <<q, parked, due, smx, fpc, reg, mpc, cur, rpc, pend, dch, ctx, sock, left>>
+vars == <<q, parked, due, smx, fpc, reg, mpc, cur, rpc, pend, dch, ctx, sock, left, sig, xpc>>
 
 Init == /\ q = <<>> /\ parked = 0 /\ due = 0 /\ smx = "none" /\ fpc = "sleep" /\ reg = TRUE /\ mpc = "loop" /\ cur = ""
         /\ rpc = "read" /\ pend = "" /\ dch = FALSE /\ ctx = "live" /\ sock = "open" /\ left = N
+        /\ sig = FALSE /\ xpc = (IF Flush = "async" THEN "idle" ELSE "exit")
 
 WriterWaiting == mpc \in {"unreg", "unregS"}
 Park == IF parked < 2 THEN parked + 1 ELSE parked
@@ -76,72 +83,86 @@ R_Read(k) == /\ rpc = "read" /\ sock = "open" /\ ctx = "live" /\ left > 0 /\ lef
                      ELSE rpc' = "park" /\ pend' = k /\ UNCHANGED <<q, parked>>
                 ELSE IF Len(q) < Q THEN q' = Append(q, k) /\ UNCHANGED <<parked, rpc, pend>>
                      ELSE rpc' = "qfull" /\ pend' = k /\ UNCHANGED <<q, parked>>
-             /\ UNCHANGED <<due, smx, fpc, reg, mpc, cur, dch, ctx, sock>>
+             /\ UNCHANGED <<due, smx, fpc, reg, mpc, cur, dch, ctx, sock, sig, xpc>>
 R_Unblock == /\ rpc = "qfull" /\ Len(q) < Q /\ q' = Append(q, pend) /\ pend' = "" /\ rpc' = "read"
-             /\ UNCHANGED <<parked, due, smx, fpc, reg, mpc, cur, dch, ctx, sock, left>>
+             /\ UNCHANGED <<parked, due, smx, fpc, reg, mpc, cur, dch, ctx, sock, left, sig, xpc>>
 R_Park    == /\ rpc = "park" /\ smx = "none" /\ parked' = Park /\ pend' = "" /\ rpc' = "read"
-             /\ UNCHANGED <<q, due, smx, fpc, reg, mpc, cur, dch, ctx, sock, left>>
+             /\ UNCHANGED <<q, due, smx, fpc, reg, mpc, cur, dch, ctx, sock, left, sig, xpc>>
 R_Closed  == /\ rpc = "read" /\ (sock = "closed" \/ ctx = "cancelled") /\ rpc' = "exit" /\ dch' = (dch \/ ctx = "live")
-             /\ UNCHANGED <<q, parked, due, smx, fpc, reg, mpc, cur, pend, ctx, sock, left>>
+             /\ UNCHANGED <<q, parked, due, smx, fpc, reg, mpc, cur, pend, ctx, sock, left, sig, xpc>>
 C_Close   == /\ sock = "open" /\ sock' = "closed"
-             /\ UNCHANGED <<q, parked, due, smx, fpc, reg, mpc, cur, rpc, pend, dch, ctx, left>>
+             /\ UNCHANGED <<q, parked, due, smx, fpc, reg, mpc, cur, rpc, pend, dch, ctx, left, sig, xpc>>
 
 (* the session's frame worker *)
 F_Tick == /\ fpc = "sleep" /\ ~WriterWaiting /\ mpc # "cancel"      \* RLock: not while a writer waits or holds
-          /\ fpc' = "in" /\ UNCHANGED <<q, parked, due, smx, reg, mpc, cur, rpc, pend, dch, ctx, sock, left>>
+          /\ fpc' = "in" /\ UNCHANGED <<q, parked, due, smx, reg, mpc, cur, rpc, pend, dch, ctx, sock, left, sig, xpc>>
 F_Call == /\ fpc = "in"
-          /\ IF ~reg THEN fpc' = "sleep" /\ UNCHANGED <<smx, due, parked>>
-             ELSE IF Flush = "direct" THEN fpc' = "sleep" /\ due' = parked /\ UNCHANGED <<smx, parked>>
-             ELSE /\ smx = "none" /\ smx' = "frame" /\ fpc' = "push" /\ UNCHANGED <<due, parked>>
-          /\ UNCHANGED <<q, reg, mpc, cur, rpc, pend, dch, ctx, sock, left>>
+          /\ IF ~reg THEN fpc' = "sleep" /\ UNCHANGED <<smx, due, parked, sig>>
+             ELSE IF Flush = "direct" THEN fpc' = "sleep" /\ due' = parked /\ UNCHANGED <<smx, parked, sig>>
+             ELSE IF Flush = "async" THEN fpc' = "sleep" /\ sig' = TRUE /\ UNCHANGED <<smx, due, parked>>
+             ELSE /\ smx = "none" /\ smx' = "frame" /\ fpc' = "push" /\ UNCHANGED <<due, parked, sig>>
+          /\ UNCHANGED <<q, reg, mpc, cur, rpc, pend, dch, ctx, sock, left, xpc>>
 F_Push == /\ fpc = "push"
           /\ IF parked = 0 THEN smx' = "none" /\ fpc' = "sleep" /\ UNCHANGED <<q, parked>>
              ELSE /\ Len(q) < Q /\ q' = Append(q, "u") /\ parked' = parked - 1 /\ UNCHANGED <<smx, fpc>>
-          /\ UNCHANGED <<due, reg, mpc, cur, rpc, pend, dch, ctx, sock, left>>
+          /\ UNCHANGED <<due, reg, mpc, cur, rpc, pend, dch, ctx, sock, left, sig, xpc>>
+
+(* ("async") the connection's flusher goroutine: no session lock is held while it pushes *)
+X_Take == /\ xpc = "idle" /\ ctx = "live" /\ sig /\ smx = "none" /\ sig' = FALSE /\ smx' = "flush" /\ xpc' = "push"
+          /\ UNCHANGED <<q, parked, due, fpc, reg, mpc, cur, rpc, pend, dch, ctx, sock, left>>
+X_Push == /\ xpc = "push"
+          /\ IF parked = 0 THEN smx' = "none" /\ xpc' = "idle" /\ UNCHANGED <<q, parked>>
+             ELSE /\ Len(q) < Q /\ q' = Append(q, "u") /\ parked' = parked - 1 /\ UNCHANGED <<smx, xpc>>
+          /\ UNCHANGED <<due, fpc, reg, mpc, cur, rpc, pend, dch, ctx, sock, left, sig>>
+X_Exit == /\ xpc = "idle" /\ ctx = "cancelled" /\ xpc' = "exit"
+          /\ UNCHANGED <<q, parked, due, smx, fpc, reg, mpc, cur, rpc, pend, dch, ctx, sock, left, sig>>
 
 (* the member's main loop *)
 M_Pop   == /\ mpc = "loop" /\ ctx = "live" /\ q # <<>> /\ cur' = Head(q) /\ q' = Tail(q) /\ mpc' = "handling"
-           /\ UNCHANGED <<parked, due, smx, fpc, reg, rpc, pend, dch, ctx, sock, left>>
+           /\ UNCHANGED <<parked, due, smx, fpc, reg, rpc, pend, dch, ctx, sock, left, sig, xpc>>
 M_Due   == /\ mpc = "loop" /\ ctx = "live" /\ due > 0 /\ parked > 0     \* ("direct") takes a due update from where it is parked
            /\ smx = "none" /\ due' = due - 1 /\ parked' = parked - 1 /\ cur' = "u" /\ mpc' = "handling"
-           /\ UNCHANGED <<q, smx, fpc, reg, rpc, pend, dch, ctx, sock, left>>
+           /\ UNCHANGED <<q, smx, fpc, reg, rpc, pend, dch, ctx, sock, left, sig, xpc>>
 M_Fin   == /\ mpc = "handling" /\ cur # "sw" /\ mpc' = "loop" /\ cur' = "" /\ dch' = (dch \/ cur = "bad")
-           /\ UNCHANGED <<q, parked, due, smx, fpc, reg, rpc, pend, ctx, sock, left>>
+           /\ UNCHANGED <<q, parked, due, smx, fpc, reg, rpc, pend, ctx, sock, left, sig, xpc>>
 \* a switch: leaveSession inside the handler (cancel func = frame write lock), then the new session's registration
 M_SwLeave == /\ mpc = "handling" /\ cur = "sw" /\ mpc' = "unregS"
-             /\ UNCHANGED <<q, parked, due, smx, fpc, reg, cur, rpc, pend, dch, ctx, sock, left>>
+             /\ UNCHANGED <<q, parked, due, smx, fpc, reg, cur, rpc, pend, dch, ctx, sock, left, sig, xpc>>
 M_SwDone  == /\ mpc = "unregS" /\ fpc = "sleep" /\ mpc' = "loop" /\ cur' = ""        \* lock granted; registered again at once
-             /\ UNCHANGED <<q, parked, due, smx, fpc, reg, rpc, pend, dch, ctx, sock, left>>
+             /\ UNCHANGED <<q, parked, due, smx, fpc, reg, rpc, pend, dch, ctx, sock, left, sig, xpc>>
 \* (repaired code) while the connection's HandleDisconnect waits for the frame lock a helper consumes the queue
 M_DiscDrain == /\ DiscDrain /\ mpc = "unreg" /\ q # <<>> /\ q' = Tail(q)
-               /\ UNCHANGED <<parked, due, smx, fpc, reg, mpc, cur, rpc, pend, dch, ctx, sock, left>>
+               /\ UNCHANGED <<parked, due, smx, fpc, reg, mpc, cur, rpc, pend, dch, ctx, sock, left, sig, xpc>>
 M_Disc  == /\ mpc = "loop" /\ ctx = "live" /\ dch /\ dch' = FALSE /\ sock' = "closed" /\ mpc' = "unreg"   \* handleDisconnect .. leaveSession
-           /\ UNCHANGED <<q, parked, due, smx, fpc, reg, cur, rpc, pend, ctx, left>>
+           /\ UNCHANGED <<q, parked, due, smx, fpc, reg, cur, rpc, pend, ctx, left, sig, xpc>>
 M_Unreg == /\ mpc = "unreg" /\ fpc = "sleep" /\ reg' = FALSE /\ mpc' = "cancel"                       \* frameMutex.Lock granted
-           /\ UNCHANGED <<q, parked, due, smx, fpc, cur, rpc, pend, dch, ctx, sock, left>>
+           /\ UNCHANGED <<q, parked, due, smx, fpc, cur, rpc, pend, dch, ctx, sock, left, sig, xpc>>
 M_Cancel == /\ mpc = "cancel" /\ ctx' = "cancelled" /\ mpc' = "wait"
-            /\ UNCHANGED <<q, parked, due, smx, fpc, reg, cur, rpc, pend, dch, sock, left>>
+            /\ UNCHANGED <<q, parked, due, smx, fpc, reg, cur, rpc, pend, dch, sock, left, sig, xpc>>
 M_Drain == /\ mpc = "wait" /\ q # <<>> /\ q' = <<>>                                                   \* (D14 repair)
-           /\ UNCHANGED <<parked, due, smx, fpc, reg, mpc, cur, rpc, pend, dch, ctx, sock, left>>
-M_Done  == /\ mpc = "wait" /\ rpc = "exit" /\ mpc' = "done"
-           /\ UNCHANGED <<q, parked, due, smx, fpc, reg, cur, rpc, pend, dch, ctx, sock, left>>
+           /\ UNCHANGED <<parked, due, smx, fpc, reg, mpc, cur, rpc, pend, dch, ctx, sock, left, sig, xpc>>
+M_Done  == /\ mpc = "wait" /\ rpc = "exit" /\ xpc = "exit" /\ mpc' = "done"
+           /\ UNCHANGED <<q, parked, due, smx, fpc, reg, cur, rpc, pend, dch, ctx, sock, left, sig, xpc>>
 
 Kinds == {"n", "u", "bad"} \cup (IF Switches THEN {"sw"} ELSE {})
 Next == (\E k \in Kinds : R_Read(k)) \/ R_Unblock \/ R_Park \/ R_Closed \/ C_Close
-        \/ F_Tick \/ F_Call \/ F_Push \/ M_Pop \/ M_Due \/ M_Fin \/ M_SwLeave \/ M_SwDone \/ M_DiscDrain \/ M_Disc \/ M_Unreg \/ M_Cancel \/ M_Drain \/ M_Done
+        \/ F_Tick \/ F_Call \/ F_Push \/ X_Take \/ X_Push \/ X_Exit \/ M_Pop \/ M_Due \/ M_Fin \/ M_SwLeave \/ M_SwDone \/ M_DiscDrain \/ M_Disc \/ M_Unreg \/ M_Cancel \/ M_Drain \/ M_Done
         \/ (mpc = "done" /\ UNCHANGED vars)
 
 MainSteps  == M_Pop \/ M_Due \/ M_Fin \/ M_SwLeave \/ M_SwDone \/ M_DiscDrain \/ M_Disc \/ M_Unreg \/ M_Cancel \/ M_Drain \/ M_Done
 RecvSteps  == R_Unblock \/ R_Park \/ R_Closed
 FrameSteps == F_Call \/ F_Push
+FlushSteps == X_Take \/ X_Push \/ X_Exit
 \* every goroutine that can move does; the client goes away in the end
 \* (strong fairness for the two goroutines that wait for a mutex or a channel slot others also take: Go's mutex does
 \* not starve a waiter and a channel serves blocked senders in order)
-Spec == Init /\ [][Next]_vars /\ WF_vars(MainSteps) /\ SF_vars(RecvSteps) /\ SF_vars(FrameSteps) /\ WF_vars(C_Close)
+Spec == Init /\ [][Next]_vars /\ WF_vars(MainSteps) /\ SF_vars(RecvSteps) /\ SF_vars(FrameSteps) /\ SF_vars(FlushSteps) /\ WF_vars(C_Close)
 
 TypeOK == Len(q) <= Q /\ parked \in 0..2 /\ left \in 0..N
 \* the frame worker never calls the handler of a member that has left (what makes closing the queue safe)
 NoCallAfterCancel == fpc = "push" => reg
+\* ("async") the queue is closed (Handle returns) only after the flusher has gone
+NoPushAfterReturn == mpc = "done" => xpc = "exit"
 \* the client goes away in the end: the handler returns - and TLC's deadlock check: nobody is left stuck
 HandlerReturns == <>(mpc = "done")
 \* shortest schedule to the wedge of the code's design, for the replay on the real server
